@@ -498,6 +498,20 @@ func gen(out string) error {
 		}
 		fmt.Fprintf(&sb, "  mkC %s %s %s %s %s%s\n", vh.Str(c.File), vh.Str(c.Func), vh.Str(c.Ctx), vh.Str(c.Chan), vh.Str(c.After), sep)
 	}
+	sb.WriteString("].\n\n(* walk-away sites (see walk.go): file function context last-reply-channel kind *)\n")
+	ws := extractWalkaways(repoDir(), pts)
+	sort.Slice(ws, func(i, j int) bool {
+		a, b := ws[i], ws[j]
+		return a.File+a.Func+a.Chan+a.Kind < b.File+b.Func+b.Chan+b.Kind
+	})
+	sb.WriteString("Definition walkaways : list closer := [\n")
+	for i, w := range ws {
+		sep := ";"
+		if i == len(ws)-1 {
+			sep = ""
+		}
+		fmt.Fprintf(&sb, "  mkC %s %s %s %s %s%s\n", vh.Str(w.File), vh.Str(w.Func), vh.Str("api"), vh.Str(w.Chan), vh.Str(w.Kind), sep)
+	}
 	sb.WriteString("].\n")
 	if out == "" {
 		fmt.Print(sb.String())
